@@ -370,6 +370,13 @@ func (sfr *SegmentFileReader) loadBlockUsingBuffer(blockNum uint16) (bool, error
 		// This is an invalid block & not an error because this column never existed for this block
 		return false, nil
 	}
+
+	// Offset and length come from the block summary file, which is not checksummed. Both
+	// buffers below are sized from the length, so it must describe bytes that exist.
+	if !BlockFitsInFile(sfr.currFD, cOffAndLen.Offset, cOffAndLen.Length) {
+		return true, ErrInvalidMetadata
+	}
+
 	if sfr.currRawBlockBuffer == nil {
 		sfr.currRawBlockBuffer = GetBufFromPool(int64(COMPRESSION_FACTOR * cOffAndLen.Length))
 	} else if len(sfr.currRawBlockBuffer) < COMPRESSION_FACTOR*int(cOffAndLen.Length) {
@@ -406,6 +413,19 @@ func (sfr *SegmentFileReader) loadBlockUsingBuffer(blockNum uint16) (bool, error
 	} else {
 		return true, ErrBadEncoding
 	}
+}
+
+// BlockFitsInFile reports whether a column block described by the block summaries
+// (offset, length) lies inside the column file.
+func BlockFitsInFile(fd *os.File, offset int64, length uint32) bool {
+	if fd == nil || offset < 0 {
+		return false
+	}
+	finfo, err := fd.Stat()
+	if err != nil {
+		return false
+	}
+	return offset <= finfo.Size() && int64(length) <= finfo.Size()-offset
 }
 
 // Returns the raw bytes of the record in the currently loaded block
